@@ -8,7 +8,7 @@ include!("common.rs");
 
 const APPS: [&str; 7] = ["A0", "A1", "A2", "A3", "", " ", "é"];
 const REFS: [&str; 9] = ["A0", "A1", "A2", "A3", "", " ", "é", "nope", "ghost"];
-const PARTS: [&str; 9] = ["a", "b", "ab", "é", ":", "::", "::", ":::", "::::"];
+const PARTS: [&str; 12] = ["a", "b", "ab", "é", ":", "::", "::", ":::", "::::", "\u{43a}", "\u{13a}", "\u{a73a}"];
 
 fn name(u: &mut Unstructured) -> String {
     let n = u.int_in_range(0..=6usize).unwrap_or(0);
